@@ -1343,8 +1343,12 @@ func collectConsts(pkg string, file *ast.File, exact bool) {
 						if vs.Values == nil {
 							continue
 						}
-					case "profile": // the IDNA profile: an oracle (ace_ok) plus Model/Idna.v
-						continue
+					case "profile": // the IDNA profile: an oracle (ace_ok) plus Model/Idna.v; its options are part of the contract
+						want := "idna.New(idna.BidiRule(), idna.ValidateLabels(true), idna.StrictDomainName(true), idna.VerifyDNSLength(true),)"
+						if i < len(vs.Values) && strings.Join(strings.Fields(src(vs.Values[i])), "") == strings.Join(strings.Fields(want), "") {
+							continue
+						}
+						fail(vs, "the IDNA profile is not idna.New(BidiRule, ValidateLabels(true), StrictDomainName(true), VerifyDNSLength(true))")
 					}
 					if exact {
 						fail(vs, "package-level variable %s", n.Name)
